@@ -103,6 +103,22 @@ fn cases(dir: &str) -> Vec<Case> {
         a.extend(sv(&extra));
         add(&format!("test:dir:{}", fname), a, "", cmp);
     }
+    // a CloudFormation template whose failing resources lie far apart (the console reporter prints an excerpt of the data
+    // file per resource, whatever the order in which it walks the resources)
+    {
+        let mut t = String::from("Resources:\n");
+        for (name, letter) in [("aaa", "A"), ("bbb", "B"), ("ccc", "C"), ("ddd", "D")] {
+            t.push_str(&format!("  {}:\n    Type: AWS::S3::Bucket\n    Properties:\n", name));
+            for k in 1..=11 {
+                t.push_str(&format!("      {}{}: {}\n", letter, k, k));
+            }
+            t.push_str("      Versioning: false\n");
+        }
+        let tl = w("cfnlong/t.yaml", &t);
+        let rl = w("cfnlong/r.guard", "rule versioning { Resources.*.Properties.Versioning == true <<on>> }\nrule a5 { Resources.*.Properties.A5 !exists }\n");
+        add("validate:cfn-long:plain", sv(&["validate", "-r", &rl, "-d", &tl]), "", "lines");
+        add("validate:cfn-long:verbose", sv(&["validate", "-r", &rl, "-d", &tl, "-S", "all", "-v"]), "", "lines");
+    }
     // a test file whose expectations are not status words (several different wrong words in one case: which one is reported?)
     let tbad = w("t/bad/r5_tests.yaml", "- name: one\n  input: {a: 1, b: 1, l: [{x: 1}]}\n  expectations:\n    rules:\n      ra: PASSED\n      rb: FAILED\n      rc: skipped\n      rd: Pass\n      re: ok\n      rf: PASS\n");
     for (fname, extra, cmp) in [("plain", vec![], "lines"), ("json", vec!["-o", "json"], "bytes"), ("yaml", vec!["-o", "yaml"], "bytes"), ("junit", vec!["-o", "junit"], "bytes")] {
